@@ -14,7 +14,7 @@ import (
 // TestScale: fill / mass expiry or mass release / refill / generation wrap / refill on pools of 500–4000 units.
 func TestScale(t *testing.T) {
 	specs := pools.ScaleSpecs()
-	rounds := run.Pick(1, 6)
+	rounds := run.Pick(1, 3)
 	var wg sync.WaitGroup
 	sem := make(chan struct{}, runtime.NumCPU())
 	for si, s := range specs {
@@ -52,8 +52,8 @@ func TestScale(t *testing.T) {
 // TestTicker: the lease-mode distributed allocator with its own epoch ticker running (virtual time) and a store that
 // echoes local writes to the watchers: exhaustive small histories with a store fault position, and random walks.
 func TestTicker(t *testing.T) {
-	depth := run.Pick(4, 6)
-	walks := run.Pick(100, 3000)
+	depth := run.Pick(4, 5)
+	walks := run.Pick(100, 1500)
 	for si, s := range pools.TickerSpecs() {
 		rep := reporter(s)
 		caps := pools.ProbeCaps(s)
